@@ -27,3 +27,6 @@ CFG = dict(
     level_note="NOT A PROOF for the second sentence of the property: 'same result in another thread / another process' is runtime behaviour (hash seeds, CPU feature detection) that no Gallina model exhibits; it is exercised by the `rel11` cases (main thread, spawned thread, fresh child process, compared bit for bit incl. avalanches() and vertex()) and is a test. avalanches()/vertex() determinism as functions of the signal arrays is likewise exercised, their models belong to C13/C14/C17. Proved part trusted as for C10.",
     note='a `rel11 fails` line is a bank list on which two orders (or two threads/processes) give different results on the real code; an `evt10` difference is a departure of the real assembly from the model proved order-independent',
 )
+
+# the pinned theorems depend on regenerated tables (coq/Gen): a failing translator is a broken tie
+CFG["uses_gen"] = True
